@@ -161,11 +161,11 @@ func concrete(m string, dataID string, pick int) []byte {
 		var w int
 		switch p[2] {
 		case "lt1":
-			w = []int{500, 1, 999}[pick%3]
+			w = []int{500, 1, 999, 0}[pick%4]
 		case "mid":
 			w = []int{5000, 1000, 29999}[pick%3]
 		case "ge30":
-			w = []int{60000, 90000, 4000000}[pick%3]
+			w = []int{60000, 90000, 4000000, 30000, 4294967295}[pick%5]
 		}
 		if pick%2 == 0 { // EEBUS spelling
 			parts := []string{fmt.Sprintf(`{"phase":"%s"}`, phase)}
@@ -196,7 +196,9 @@ func concrete(m string, dataID string, pick int) []byte {
 		utf8 := `{"formats":[{"format":["JSON-UTF8"]}]}`
 		switch p[1] {
 		case "announceMax":
-			return f("announceMax", 1, 0, utf8)
+			// (a proposal may list several formats; the server selects JSON-UTF8)
+			return choose(f("announceMax", 1, 0, utf8), f("announceMax", 1, 0, `{"formats":[{"format":["JSON-UTF8","JSON-UTF16"]}]}`),
+				f("announceMax", 1, 0, utf8))
 		case "select":
 			return f("select", 1, 0, utf8)
 		case "selectBad":
@@ -226,7 +228,9 @@ func concrete(m string, dataID string, pick int) []byte {
 			return choose(ctl(`{"accessMethods":[{"id":5}]}`), ctl(`{"accessMethods":[{"id":[{"x":1}]}]}`))
 		}
 		return choose(ctl(fmt.Sprintf(`{"accessMethods":[{"id":"%s"}]}`, ids[p[1]])),
-			ctl(fmt.Sprintf(`{"accessMethods":{"id":"%s"}}`, ids[p[1]])))
+			ctl(fmt.Sprintf(`{"accessMethods":{"id":"%s"}}`, ids[p[1]])),
+			ctl(fmt.Sprintf(`{"accessMethods":[{"id":"%s"},{"dnsSd_mDns":[]}]}`, ids[p[1]])),
+			ctl(fmt.Sprintf(`{"accessMethods":[{"id":"%s"},{"dns":[{"uri":"wss://peer.local:4712/ship/"}]}]}`, ids[p[1]])))
 	case "close":
 		ph := map[string]string{"announce": "announce", "confirm": "confirm", "other": "foo"}[p[1]]
 		// maxTime is the ANNOUNCING side's patience; how long the receiving side takes is its own business (500 ms), whatever
